@@ -204,7 +204,10 @@ func mkSchedule(kind string, tokens int) core.Schedule {
 	case kind == "line": // rising rate over 20 ms
 		return schedule.NewLine(f*10, f*90, 20*time.Millisecond)
 	case kind == "step": // two steps of 8 ms
-		return schedule.NewStep(f*40, f*80, int64(tokens*40)+1, 8*time.Millisecond)
+		if tokens == 0 {
+			return schedule.NewConst(0, time.Millisecond)
+		}
+		return schedule.NewStep(f*42, f*84, int64(tokens*42), 8*time.Millisecond)
 	case kind == "comp2": // once + paced tail
 		a := tokens / 2
 		return schedule.NewComposite(schedule.NewOnce(int64(a)), schedule.NewConst(f*50+1, time.Duration(10*(tokens-a))*time.Millisecond/10))
